@@ -448,22 +448,22 @@ Record vobs := mkV {
   o_sizes : eres (list (Z * Z));
   o_size : list (eres Z);            (* client_size on every universe id *)
   o_clients : estream;
-  o_shuffled : list (list nat * list Z * list (Z * dobs));   (* passes of shuffled_clients: oracle, items *)
+  o_shuffled : list (Z * list nat * list Z * list (Z * dobs));   (* passes of shuffled_clients: buffer_size, oracle, items *)
   o_get : list (eres dobs);          (* get_client on every universe id *)
   o_gets : list estream              (* get_clients on every request *)
 }.
 
-Definition model_vobs (u : list id) (reqs : list (list id)) (buf : Z)
-    (oracles : list (list nat * list Z)) (d : fd) : vobs :=
+Definition model_vobs (u : list id) (reqs : list (list id))
+    (oracles : list (Z * list nat * list Z)) (d : fd) : vobs :=
   mkV (to_eres (fun z => z) (fd_num d))
       (to_eres (map (idx_of u)) (fd_ids d))
       (to_eres (map (fun kv => (idx_of u (fst kv), snd kv))) (fd_sizes d))
       (map (fun i => to_eres (fun z => z) (fd_size d i)) u)
       (to_estream u (fd_clients d))
-      (map (fun cd => match fd_shuffled_pass d buf (fst cd) (snd cd) with
-                      | Some out => (fst cd, snd cd, fst (to_estream u (out, Done)))
-                      | None => (fst cd, snd cd, [(-1, ([], []))])      (* never equal to an observation *)
-                      end) oracles)
+      (map (fun bcd => match fd_shuffled_pass d (fst (fst bcd)) (snd (fst bcd)) (snd bcd) with
+                       | Some out => (bcd, fst (to_estream u (out, Done)))
+                       | None => (bcd, [(-1, ([], []))])      (* never equal to an observation *)
+                       end) oracles)
       (map (fun i => to_eres observe (fd_get d i)) u)
       (map (fun r => to_estream u (fd_gets d r)) reqs)
   .
@@ -475,8 +475,9 @@ Definition eres_eqb {A} (eqb : A -> A -> bool) (a b : eres A) : bool :=
   match a, b with V x, V y => eqb x y | K, K => true | X, X => true | _, _ => false end.
 Definition estream_eqb (a b : estream) := list_beq nd_eqb (fst a) (fst b) && Z.eqb (snd a) (snd b).
 
-Definition pass_eqb (a b : list nat * list Z * list (Z * dobs)) : bool :=
-  list_beq Nat.eqb (fst (fst a)) (fst (fst b)) && lz_eqb (snd (fst a)) (snd (fst b)) && list_beq nd_eqb (snd a) (snd b).
+Definition pass_eqb (a b : Z * list nat * list Z * list (Z * dobs)) : bool :=
+  Z.eqb (fst (fst (fst a))) (fst (fst (fst b))) && list_beq Nat.eqb (snd (fst (fst a))) (snd (fst (fst b))) &&
+  lz_eqb (snd (fst a)) (snd (fst b)) && list_beq nd_eqb (snd a) (snd b).
 
 Definition vobs_agree (m o : vobs) : bool :=
   eres_eqb Z.eqb (o_num m) (o_num o) &&
@@ -493,14 +494,26 @@ Record C08_case := mkC08 {
   c_aliens : list id;           (* ids that are not clients *)
   c_ops : list op;
   c_reqs : list (list id);
-  c_buf : Z                     (* buffer_size of shuffled_clients *)
+  c_bounds : list (option id)   (* slice-grid: every (start, stop) pair of these bounds is sliced off the final view *)
 }.
 
 (* one observed view: which pipeline, after how many operations, which operations were refused
    (ValueError) so far, and everything observed through the view *)
-Definition C08_obs := list (pipeline * Z * list bool * vobs).
+Definition C08_entry := (pipeline * Z * list bool * vobs)%type.
+(* + the slice grid: per pipeline, for every (start, stop) in c_bounds x c_bounds (row major), the set of ids
+   client_ids() exposes after one more slice(start, stop), as a bit mask over the universe *)
+Definition C08_obs := (list C08_entry * list (pipeline * list Z))%type.
 
 Definition flags_eqb := list_beq Bool.eqb.
+
+Definition mask_of (u : list id) (ids : list id) : Z := fold_right (fun i acc => acc + 2 ^ idx_of u i) 0 ids.
+
+Definition grid_agree (c : C08_case) (u : list id) (g : pipeline * list Z) : bool :=
+  let pairs := list_prod (c_bounds c) (c_bounds c) in
+  lz_eqb (map (fun se => match ids_of (fst g) (c_ds c) (c_ops c ++ [OSlice (fst se) (snd se)]) with
+                         | Some o => mask_of u o
+                         | None => -1
+                         end) pairs) (snd g).
 
 Definition C08_agree (c : C08_case) (o : C08_obs) : bool :=
   let u := map fst (c_ds c) ++ c_aliens c in
@@ -510,7 +523,8 @@ Definition C08_agree (c : C08_case) (o : C08_obs) : bool :=
         match impl_run p (c_ds c) (firstn (Z.to_nat k) (c_ops c)) with
         | Some (d, fl') =>
             flags_eqb fl' fl &&
-            vobs_agree (model_vobs u (c_reqs c) (c_buf c) (map fst (o_shuffled ob)) d) ob
+            vobs_agree (model_vobs u (c_reqs c) (map fst (o_shuffled ob)) d) ob
         | None => false
         end
-    end) o.
+    end) (fst o) &&
+  forallb (grid_agree c u) (snd o).
